@@ -183,6 +183,16 @@ class Discharger:
                     return ("D-HANDOFF", "inside the turn-taking module: the predecessor's Drop always sends the token / passes the reader on (C01.3, C09.4)")
                 if shared.tls_branch_dead(self.ctx, f, bb):
                     return ("D-DEAD-CFG", "HTTPS-only synchronisation; Stream::secure() is constantly false in this configuration")
+            # D-HANDOFF through helpers: the value unwrapped comes out of private helpers of the turn-taking module (`self.turn.wait()`,
+            # `turn.with(..)`, `turn.take()`); it is an error only on paths on which a channel receive failed
+            rawf0 = facts.fns.get(f.src_of(bb)) or f
+            if rawf0.file == facts.adt(SW)["file"]:
+                side = rawf0.rec.get("impl_self_adt")
+                need_w, need_r = side not in (SR, SRB), side not in (SW, SWB)
+                if (self.handoff_w or not need_w) and (self.handoff_r or not need_r):
+                    cause = self.recv_is_only_cause(rawf0, f.blocks[bb].get("obb", bb) if getattr(f, "is_inlined", False) else bb)
+                    if cause:
+                        return ("D-HANDOFF", cause)
             # D-POISON
             if o[0] == "call" and (o[1] == LOCK or o[1] in (CV_WAIT, CV_WAIT_T)):
                 if poison_phase:
@@ -375,6 +385,41 @@ class Discharger:
             if call_name(t2) in emptiers and bb in f.reach([f.normal_target(b2)], unwind=False):
                 return False
         return True
+
+    def recv_is_only_cause(self, g, bb):
+        """the panic of the unwrap/expect at (g, bb) is reached, on the abstract paths of g with the helpers of its file and the small std
+        combinators spliced in, only after a channel receive returned an error (or not at all)"""
+        import inline, absint
+        memo = self.__dict__.setdefault("_recv_cause", {})
+        if (g.id, bb) in memo:
+            return memo[(g.id, bb)]
+        X = inline.inlined(self.facts, g.id, stop=lambda d: self.facts.fns[d].rec.get("local") and self.facts.fns[d].file != g.file, extern_ok=Q.std_small)
+        ps = absint.explore(X, 0, None, max_paths=4000, max_visits=2)
+        res = None
+        if not any(p.end[0] == "cut" for p in ps):
+            hits = []
+            for p in ps:
+                if p.end[0] not in ("diverge", "terminate"):
+                    continue
+                blk = X.blocks[p.blocks[-1]]
+                sites = set(blk.get("sites") or ()) | {(blk.get("src") or X.id, blk.get("obb", p.blocks[-1]))}
+                if (g.id, bb) in sites:
+                    hits.append(p)
+            def recv_failed(p):
+                for b_, c in p.conds:
+                    if c and c[0] == "variant" and c[2] in ("Err", "Break") and c[3]:
+                        h = absint.head_call(c[3])
+                        if h is not None and (h[1] == RECV or re.search(r"mpsc::Receiver::<T>::recv$", h[1])):
+                            return True
+                        if any(x and x[0] == "call" and re.search(r"mpsc::Receiver::<T>::recv$", x[1]) for x in absint.walk_terms(c[3])):
+                            return True
+                return False
+            if not hits:
+                res = "inside the turn-taking module: the value unwrapped here is never an error on any abstract path"
+            elif all(recv_failed(p) for p in hits):
+                res = "inside the turn-taking module: the value unwrapped is an error only when a channel receive failed, and the predecessor's Drop always sends the token / passes the reader on (C01.3, C09.4)"
+        memo[(g.id, bb)] = res
+        return res
 
     def _from_notify(self, f, o):
         fld = self.ns["field"] if self.ns else None
